@@ -3,6 +3,7 @@ import Pxv.Lemmas.ScopeProcess
 import Pxv.Lemmas.ScopeStage
 import Pxv.Lemmas.Injection
 import Pxv.Thm.C01
+import Pxv.Thm.C03
 /-!
 C04 — injection is faithful: right constructor, right scope, no illicit copies.
 
@@ -335,7 +336,36 @@ example :
     (applyReqs (fresh g) [(1, 2), (0, 1), (0, 1)]).clones = [(3, 0)] ∧
     g.wellFormed = true ∧ isRun (applyReqs (fresh g) [(0, 1)]).g [0, 3, 1, 2] = true := by decide
 
+-- Non-vacuity (scope graph of a real blueprint): root registers T7 twice (ids 10, 11), a route, and nests a blueprint that
+-- overrides T7 (id 12) and has a route and a middleware; a second nested blueprint has only a route.
+example :
+    let b : Bp := .cons (.ctor ⟨10, 7, .request, false⟩) (.cons (.route 0) (.cons (.ctor ⟨11, 7, .request, true⟩)
+      (.cons (.nest (.cons (.mw 0) (.cons (.route 1) (.cons (.ctor ⟨12, 7, .request, false⟩) .nil))))
+      (.cons (.nest (.cons (.route 2) .nil)) .nil))))
+    let st := process b
+    st.routes = [(0, 1), (2, 4), (1, 7)] ∧ st.mws = [(0, 6)] ∧ st.nested = [(3, 0), (5, 0)] ∧ st.next = 8 ∧
+    (build st).parents 8 = [0, 3, 5] ∧ ancestors (build st) 7 = [7, 5, 0] ∧
+    ((get (build st) st.regs 7 7).map (·.id), (get (build st) st.regs 4 7).map (·.id), (get (build st) st.regs 1 7).map (·.id),
+      (get (build st) st.regs 6 7).map (·.id)) = (some 12, some 11, some 11, some 12) := by decide
+
 end Pxv.Scope
+
+section
+open Pxv.Scope
+-- Non-vacuity (stage pass): pre `p(T0)`, handler `h(T0)`, post `q(&T0)` of one stage: both by-value uses need a clone when
+-- the constructor allows it; with a never-clone constructor the stage is rejected at the first of them.
+abbrev StageView := Option (List (Nat × List Nat)) × Option Nat
+def stageView (r : Except Nat (List (Nat × List Nat))) : StageView :=
+  match r with
+  | .ok t => (some t, none)
+  | .error i => (none, some i)
+example : stageView (stageCloning [[⟨0, false, true, false⟩], [⟨0, false, true, false⟩], [⟨0, true, true, false⟩]]) =
+    ((some [(0, [0, 1])], none) : StageView) := by decide
+example : stageView (stageCloning [[⟨0, false, false, false⟩], [⟨0, false, false, false⟩], [⟨0, true, false, false⟩]]) =
+    ((none, some 0) : StageView) := by decide
+example : stageView (stageCloning [[⟨0, false, false, false⟩], [⟨0, true, false, false⟩]]) = ((none, some 0) : StageView) := by decide
+example : stageView (stageCloning [[⟨0, true, false, false⟩], [⟨0, false, false, false⟩]]) = ((some [], none) : StageView) := by decide
+end
 
 namespace Pxv.Life
 open Pxv.Scope
@@ -393,6 +423,23 @@ theorem injection_partial (env : Env) (tyOf : Nat → Option Nat) (chain : List 
       simp only [Plan.ctorAt, h1, Option.bind_some, h2, Option.map_some]
       rw [hsc]
       simpa using h3
+
+
+
+-- Non-vacuity: the uniform pipeline of Thm/C03 (hoisting through `Next1` included) is faithful
+example : Uniform exEnv exLk exChain exH := fun _ _ => rfl
+example : faithful exEnv exPlan = true := by decide
+example : UidInj exLk := uidInj_of_table exTab (by decide)
+-- the guard is not vacuous: the pipeline of the compiler-panic witness (root post `m1(&T0)` + pre `m2(&T0)` share
+-- `c0`, the route's blueprint overrides T0 with `c0b` and its handler takes &T0) has two nodes for `c0b`.
+example :
+    let env : Env := { get := fun s t => if t = 0 then (if s = 1 ∨ s = 2 then some wC0 else some wC0b) else none, fuel := 3 }
+    let p := plan env (fun _ => some 0) [⟨.noop, 0, 5, []⟩, ⟨.post, 1, 1, [(0, .ref)]⟩, ⟨.pre, 2, 2, [(0, .ref)]⟩] ⟨.handler, 0, 5, [(0, .ref)]⟩
+    p.invariantsOk = false ∧ p.count 100 = 2 := by decide
+-- the witness of `injection_statement_false` passes the guard and delivers `c0` where `c0b` is designated
+example : (plan wEnv (fun _ => some 0) wChain wH).invariantsOk = true ∧
+    ((plan wEnv (fun _ => some 0) wChain wH).comps[2]?.map (fun c => c.args.map ((plan wEnv (fun _ => some 0) wChain wH).origin 2))) = some [.node 1 0] ∧
+    (plan wEnv (fun _ => some 0) wChain wH).ctorAt (.node 1 0) = some wC0 ∧ wEnv.get 5 0 = some wC0b := by decide
 
 
 end Pxv.Life
